@@ -35,58 +35,6 @@ RULE += (' ' +
          'recording second link (library locks scheduler-aware); component '
          'route (delegated to C14): an exception handler queues a farewell '
          'and calls the plain disconnect() - 2 origins x 3 versions x 3 '
-         'compression modes x 4 finals x 4 chains. ')
-RULE += (' ' +
-         'Added in later rounds: two-thread reconnect scenarios with a '
-         'recording second link (library locks scheduler-aware); component '
-         'route (delegated to C14): an exception handler queues a farewell '
-         'and calls the plain disconnect() - 2 origins x 3 versions x 3 '
-         'compression modes x 4 finals x 4 chains. Round 11: '
-         'disconnect(immediate=...) spelled False / True / 0 / 1 / None. ')
-RULE += (' ' +
-         'Added in later rounds: two-thread reconnect scenarios with a '
-         'recording second link (library locks scheduler-aware); component '
-         'route (delegated to C14): an exception handler queues a farewell '
-         'and calls the plain disconnect() - 2 origins x 3 versions x 3 '
-         'compression modes x 4 finals x 4 chains. Round 11: '
-         'disconnect(immediate=...) spelled False / True / 0 / 1 / None. '
-         'Round 12: op fx (a forced write that fails to serialise in the '
-         'caller); component handoff (user thread queues A1..An while a '
-         'listener is parked, the listener then queues B1..Bm, the user C; '
-         'both orders; clause A3-order-across-threads). ')
-RULE += (' ' +
-         'Added in later rounds: two-thread reconnect scenarios with a '
-         'recording second link (library locks scheduler-aware); component '
-         'route (delegated to C14): an exception handler queues a farewell '
-         'and calls the plain disconnect() - 2 origins x 3 versions x 3 '
-         'compression modes x 4 finals x 4 chains. Round 11: '
-         'disconnect(immediate=...) spelled False / True / 0 / 1 / None. '
-         'Round 12: op fx (a forced write that fails to serialise in the '
-         'caller); component handoff (user thread queues A1..An while a '
-         'listener is parked, the listener then queues B1..Bm, the user C; '
-         'both orders; clause A3-order-across-threads). Round 13: every '
-         'other payload is compressible (the deflated form is shorter than '
-         'the packet). ')
-RULE += (' ' +
-         'Added in later rounds: two-thread reconnect scenarios with a '
-         'recording second link (library locks scheduler-aware); component '
-         'route (delegated to C14): an exception handler queues a farewell '
-         'and calls the plain disconnect() - 2 origins x 3 versions x 3 '
-         'compression modes x 4 finals x 4 chains. Round 11: '
-         'disconnect(immediate=...) spelled False / True / 0 / 1 / None. '
-         'Round 12: op fx (a forced write that fails to serialise in the '
-         'caller); component handoff (user thread queues A1..An while a '
-         'listener is parked, the listener then queues B1..Bm, the user C; '
-         'both orders; clause A3-order-across-threads). Round 13: every '
-         'other payload is compressible (the deflated form is shorter than '
-         'the packet). Round 14: net_forced - the peer sends packets and an '
-         'incoming listener answers each with a forced write, scheduled '
-         'together with the user threads. ')
-RULE += (' ' +
-         'Added in later rounds: two-thread reconnect scenarios with a '
-         'recording second link (library locks scheduler-aware); component '
-         'route (delegated to C14): an exception handler queues a farewell '
-         'and calls the plain disconnect() - 2 origins x 3 versions x 3 '
          'compression modes x 4 finals x 4 chains. Round 11: '
          'disconnect(immediate=...) spelled False / True / 0 / 1 / None. '
          'Round 12: op fx (a forced write that fails to serialise in the '
@@ -97,7 +45,8 @@ RULE += (' ' +
          'the packet). Round 14: net_forced - the peer sends packets and an '
          'incoming listener answers each with a forced write, scheduled '
          'together with the user threads. Round 15: force / immediate passed '
-         'by position in half of the calls. ')
+         'by position in half of the calls. Round 16: looking-only early and '
+         'late outgoing listeners in the scheduled writer scenarios. ')
 LEVEL_TEXT = ('Systematic schedule exploration (bounded-preemption '
               'enumeration, exhaustive for the listed small scenarios and '
               'bound; seeded random schedules beyond) of the real write '
